@@ -988,10 +988,17 @@ def judge_conversion(agg, curve: str, r: int, sv: int, origin: str, via=("ECDSAS
                 agg.bad("ecdsa-raw-reexport-wrong", wit)
             else:
                 agg.ok("convert", "raw->DER", curve, origin, sample={"r_len": _blen(r), "s_len": _blen(sv), "der_len": len(der)})
+        # DER signatures in which r and s together lose up to five leading bytes (total length 2*size+3 .. 2*size+8)
+        # are what signing really produces; they are inside the length window the converter supports and MUST convert.
+        # Shorter encodings are refused by the length heuristic (counted, part of the recorded DER findings).
+        in_window = 2 * size + 3 <= len(der) <= 2 * size + 8 and len(der) // 2 not in RAW_SIZES
         try:
             p = E.parse(der)
         except s.SPSDKError as e:
-            agg.refused(["convert", "DER-parse", curve, origin], e)
+            if in_window:
+                agg.bad("ecdsa-der-refused-inside-the-supported-length-window", dict(wit, where="ECDSASignature.parse", refusal=str(e)[:160]))
+            else:
+                agg.refused(["convert", "DER-parse", curve, origin], e)
         else:
             if (p.r, p.s) != (r, sv):
                 # the only modelled mechanism: the blob's length equals a raw signature length, so it is split in halves
@@ -1025,7 +1032,11 @@ def judge_conversion(agg, curve: str, r: int, sv: int, origin: str, via=("ECDSAS
                 if out == expected:
                     agg.ok("convert", f"get_signature {blob_name}->{out_enc}", curve, origin)
                 elif out == blob:
-                    agg.refused(["convert", f"get_signature {blob_name}->{out_enc} passed through unconverted", curve, origin], "")
+                    if blob_name == "DER" and 2 * size + 3 <= len(der) <= 2 * size + 8 and len(der) // 2 not in RAW_SIZES:
+                        agg.bad("get_signature-der-inside-the-supported-window-passed-through-unconverted",
+                                dict(wit, where="SignatureProvider.get_signature", out_enc=str(out_enc), got_len=len(out)))
+                    else:
+                        agg.refused(["convert", f"get_signature {blob_name}->{out_enc} passed through unconverted", curve, origin], "")
                 elif blob_name == "DER" and len(der) // 2 in RAW_SIZES:
                     agg.bad(KF_DER_LENGTH, dict(wit, where="SignatureProvider.get_signature", out_enc=str(out_enc), got=out))
                 elif blob_name == "DER" and out_enc != "DER" and len(out) // 2 in RAW_SIZES and len(out) != 2 * size \
